@@ -221,15 +221,39 @@ def normalised_body(A, h, body, depth, seen, expanded=None, keep=()):
     return out
 
 
-def _alias_locals(node):
-    """{name: attribute expression} for `x = self.a.b` bound exactly once,
-    never re-bound, with no store to that attribute path in the function."""
+def _init_only_attrs(cls):
+    """attributes of self that are data attributes bound by constructors only
+    (never re-bound by another method, not properties): `x = self.attr` is
+    then a mere abbreviation for the life of the object."""
+    if cls is None:
+        return set()
+    cache = getattr(cls, '_init_only', None)
+    if cache is not None:
+        return cache
+    in_init, elsewhere, props = set(), set(), set()
+    for c in cls.mro() + list(cls.all_subclasses()):
+        for m in c.methods.values():
+            if m.is_property:
+                props.add(m.name)
+            for n in ast.walk(getattr(m, 'original_node', m.node)):
+                if isinstance(n, ast.Attribute) and isinstance(n.ctx, (ast.Store, ast.Del)) \
+                        and isinstance(n.value, ast.Name) and n.value.id == 'self':
+                    (in_init if m.name == '__init__' else elsewhere).add(n.attr)
+    cls._init_only = in_init - elsewhere - props
+    return cls._init_only
+
+
+def _alias_locals(node, cls=None):
+    """{name: binding} for `x = self.attr` bound exactly once, never
+    re-bound, where attr is a constructor-only data attribute of the class."""
     binds, stores_attr, stores_name = {}, set(), {}
+    ok_attrs = _init_only_attrs(cls)
     for n in _own_nodes(node):
         if isinstance(n, ast.Assign) and len(n.targets) == 1 \
                 and isinstance(n.targets[0], ast.Name) \
                 and isinstance(n.value, ast.Attribute) \
-                and norm(n.value).startswith('self.') and _simple_arg(n.value):
+                and isinstance(n.value.value, ast.Name) \
+                and n.value.value.id == 'self' and n.value.attr in ok_attrs:
             binds.setdefault(n.targets[0].id, []).append(n)
         if isinstance(n, ast.Attribute) and isinstance(n.ctx, (ast.Store, ast.Del)):
             stores_attr.add(norm(n))
@@ -267,7 +291,7 @@ def normalised(A, f, keep=()):
     new.body = _flatten([inl.visit(s) for s in new.body])
     changed = inl.changed
     # 2. alias locals
-    aliases = _alias_locals(new)
+    aliases = _alias_locals(new, f.cls)
     if aliases:
         mapping = {k: v.value for k, v in aliases.items()}
         drops = list(aliases.values())
